@@ -61,6 +61,8 @@ func (w *modelW) op(t *instM, kind int, k uint32) {
 		w.A.close(0) // CloseWithExitCode returns normally: the guest keeps running
 	case KClose7:
 		w.A.close(7)
+	case KCloseB7:
+		w.B.close(7) // the caller (A) is not affected
 	default:
 		panic(mfail{trapClass[kind]})
 	}
